@@ -118,6 +118,21 @@ theorem filters_partition (g : Geo) (cus : List Nat) (hs : 0 < cus.sum) (w : WG)
     simp only [Bool.and_eq_true, decide_eq_true_eq] at h
     exact u j hj h.1 h.2
 
+/-- **Σ NumWG_gpu = NumWG.** The numbers of work-groups announced by the per-GPU grid builders
+    (each with its filter closure) add up to the number of work-groups of the whole grid. -/
+theorem numWG_split (g : Geo) (cus : List Nat) (hs : 0 < cus.sum) :
+    ((List.range cus.length).map fun i =>
+      countWG g (some (gpuFilter g (wgDist (wgPerCU g.total cus.sum) cus 0) i))).sum = countWG g none := by
+  have hc : ∀ q : Coord → Bool, (countLoop g).countP q = (allWGs g).countP (fun w => q w.id) := by
+    intro q
+    rw [(countLoop_perm g).countP_eq q, allWGs, List.countP_map, List.countP_map]
+    rfl
+  simp only [countWG, hc]
+  rw [sum_countP_partition (allWGs g) cus.length
+    (fun i w => gpuFilter g (wgDist (wgPerCU g.total cus.sum) cus 0) i w.id)
+    (fun w hw => filters_partition g cus hs w hw)]
+  simp [allWGs, Geo.total]
+
 /-- **partition_alg_covers.** The partition algorithm gives compute unit `i` the builder
     `Skip(i·per)` and at most `per = ⌈n/numCU⌉` groups from it; these ranges, concatenated over
     the compute units, are exactly the (filtered) work-group list: each group is owned by exactly
